@@ -299,9 +299,10 @@ def run(tier, seed):
     rep.outside = ["histories longer than the bound", "more than two concurrent streams", "frames of a message arriving after the next message's first frame"]
     jobs = [(fc, sizes, maxp) for fc in (0, 1)] + [(fc, (27, 13), maxp) for fc in (0, 1)]
     # the second stream's frames after every other X frame only (two consecutive X frames with no foreign frame between them)
-    jobs += [(0, sizes, maxp, "odd"), (0, sizes, maxp, "even"), (0, (13, 13), maxp, "odd"), (0, (13, 13), maxp, "even")]
+    mp4 = min(maxp, 4)        # the variants below keep the quick tier's pick bound in the thorough tier too (wall time)
+    jobs += [(0, sizes, mp4, "odd"), (0, sizes, mp4, "even"), (0, (13, 13), mp4, "odd"), (0, (13, 13), mp4, "even")]
     # payload lengths that are multiples of 7 (the last frame carries a single byte)
-    jobs += [(fc, (14, 7), maxp) for fc in (0, 1)] + [(0, (21, 14), 3)]
+    jobs += [(fc, (14, 7), mp4) for fc in (0, 1)] + [(0, (21, 14), 3)]
     # a message that fits into its first frame between two longer ones; only consecutive counters are assumed different
     jobs += [(0, (20, 5, 13), 2, "every", "consecutive"), (0, (13, 6, 13), 2, "odd", "consecutive")]
     if tier == "thorough":
